@@ -192,6 +192,14 @@ def gen_project(rng, mode=None):
         if kind == "function":
             uid[0] += 1
             ret = {"name": f"r{uid[0]}", "typ": ret_type(rng, mode), "prefix": rng.random() < 0.5}
+            # a result typed in the function statement may get further attributes from separate statements
+            ret["stmt_attr"] = rng.choice([None, None, "dimension(3)", "pointer", "allocatable", "target"]) \
+                if ret["prefix"] else None
+        if rng.random() < 0.4:
+            uid[0] += 1         # an implicitly typed dummy argument (no declaration at all)
+            args.append({"name": f"i{uid[0]}", "form": "implicit", "vartype": "integer", "kind": None, "strlen": None,
+                         "attribs": [], "dim": None, "initial": None, "parameter": False, "intent": None,
+                         "points": False, "has_literal": False})
         procs.append({"name": f"pr{j}", "kind": kind, "args": args, "bind": bind, "ret": ret,
                       "locals": [nv("local") for _ in range(rng.choice([0, 1]))],
                       "namelist": j == 0})
@@ -213,6 +221,11 @@ def gen_project(rng, mode=None):
         pstmts = [ps for ps in pstmts if not ps["has_literal"]]
     return {"mode": mode, "mod_vars": mod_vars, "pstmts": pstmts, "tvars": tvars, "procs": procs, "iface": iface,
             "bound": bound}
+
+
+def ret_text(ret):
+    """the declaration of a function result as it is to be shown"""
+    return ret["typ"] + (", " + ret["stmt_attr"] if ret.get("stmt_attr") else "")
 
 
 def iface_ret_decl(f):
@@ -296,7 +309,11 @@ def render_project(p, control=False):
             L.append(T(f"  subroutine {pr['name']}({arglist}){bind}"))
         L.append(f"    !! doc of {pr['name']}")
         for a in pr["args"]:
-            L.append(T(render_var(a, "    ")))
+            if a.get("form") != "implicit":
+                L.append(T(render_var(a, "    ")))
+        if pr["kind"] == "function" and pr["ret"].get("stmt_attr"):
+            sa, rn = pr["ret"]["stmt_attr"], pr["ret"]["name"]
+            L.append(f"    dimension {rn}(3)" if sa.startswith("dimension") else f"    {sa} :: {rn}")
         if pr["kind"] == "function" and not pr["ret"]["prefix"]:
             L.append(T(f"    {pr['ret']['typ']} :: {pr['ret']['name']}"))
         for d in pr["locals"]:
